@@ -102,6 +102,29 @@ def hooks_complete(rec):
     return True, ""
 
 
+def fits32(rec):
+    """TLC integers are 32 bit: a trace whose horizon in ticks / limit units (or any logged number) does not fit cannot be evaluated."""
+    P = rec.get("project")
+    if not P:
+        return False
+    big = 2 ** 31 - 1
+    scale = max([r.get("effN", 1) * r.get("lmul", 1) for r in P["res"]] + [P.get("L", 1), 1])
+    if (P["N"] + 2) * P["G"] * scale * 2 > big:
+        return False
+
+    def ok(x):
+        if isinstance(x, bool):
+            return True
+        if isinstance(x, int):
+            return -big <= x * 2 <= big
+        if isinstance(x, dict):
+            return all(ok(v) for v in x.values())
+        if isinstance(x, list):
+            return all(ok(v) for v in x)
+        return True
+    return ok(P["tasks"]) and ok(rec.get("events", [])) and ok(rec.get("final", []))
+
+
 class Verdict:
     def __init__(self, tid, conf, div, bad, final_ok, dialect):
         self.id = tid
